@@ -7,7 +7,7 @@ from vdriver import *  # noqa
 import vdriver as vd
 
 MIRI_QUICK = {
-    "C01": ["miri-swar", "miri-avx2"],
+    "C01": ["miri-swar", "miri-avx2", "miri-sse42"],
     "C04": ["miri-swar"],
     "C12": ["miri-avx2", "miri-sse42"],
     "C16": ["miri-swar"],
@@ -50,6 +50,12 @@ def extra(ver):
         for s in range(seeds):
             res = run_shards(v, prop, "tiny", ver.seed + s * 7919, NCPU, timeout=1500 if tier == "quick" else 6000)
             ver.add_run(miri_label(v) + (" (seed+%d)" % (s * 7919) if s else ""), v, "tiny", res)
+    if tier == "quick" and prop == "C01":
+        # in-page over-reads never fault on a guard page and do not change results: only byte-exact
+        # tools see them. ASan on exact-size heap buffers, all three backends forced in turn.
+        canary_tool(ver, "asan")
+        res = run_shards("asan", prop, "small", ver.seed, NCPU, timeout=1500)
+        ver.add_run("AddressSanitizer (exact-size heap buffers)", "asan", "small", res)
     if tier == "thorough":
         for (v, wt) in NATIVE_TOOLS_THOROUGH.get(prop, []):
             canary_tool(ver, v)
